@@ -85,7 +85,7 @@ def make_body(l1, l2, hist, info):
             try:
                 next(it)
             except StopIteration:
-                info['reason'] = 'history unification failed although the reference succeeds'
+                ch.note(info, 'history unification failed although the reference succeeds')
                 return ch.VIOLATED
             opened.append(it)
         names = {}
@@ -103,32 +103,32 @@ def make_body(l1, l2, hist, info):
                 g2 = show(get_value(t2), names)
                 names = {}
                 if g1 != show(t1, names) or g2 != show(t2, names) or g1 != g2:
-                    info['reason'] = 'get_value of the two sides differs at the yield: %r / %r' % (g1, g2)
+                    ch.note(info, 'get_value of the two sides differs at the yield: %r / %r', g1, g2)
                     return ch.VIOLATED
             names = {}
             if [show(v, names) for v in vs] != before:
-                info['reason'] = 'binding state not restored after unify was exhausted'
+                ch.note(info, 'binding state not restored after unify was exhausted')
                 return ch.VIOLATED
             outcomes.append((n, obs))
         for n, obs in outcomes:
             if n > 1:
-                info['reason'] = 'unify yielded %d times' % n
+                ch.note(info, 'unify yielded %d times', n)
                 return ch.VIOLATED
             if (n == 1) != (s2 is not None):
-                info['reason'] = 'unify yields=%d but reference unifiable=%r' % (n, s2 is not None)
+                ch.note(info, 'unify yields=%d but reference unifiable=%r', n, s2 is not None)
                 return ch.VIOLATED
         if s2 is not None:
             names = {}
             exp = (resolve(r1, s2, names), resolve(r2, s2, names), [resolve(('v', i), s2, names) for i in range(NV)])
             for n, obs in outcomes:
                 if obs != exp:
-                    info['reason'] = 'bindings at the yield %r differ from the reference mgu %r' % (obs, exp)
+                    ch.note(info, 'bindings at the yield %r differ from the reference mgu %r', obs, exp)
                     return ch.VIOLATED
         for it in reversed(opened):
             it.close()
         for v in vs:
             if v._is_bound:
-                info['reason'] = 'a variable is still bound after all generators were closed'
+                ch.note(info, 'a variable is still bound after all generators were closed')
                 return ch.VIOLATED
         if s2 is not None and len(s2) > len(s_hist):
             return ch.HOLDS_NONTRIVIAL
